@@ -152,7 +152,7 @@ func loadProgram(cfg *Config) (*ssa.Program, []*ssa.Package, error) {
 		Dir:        cfg.Repo,
 		Overlay:    overlay,
 		BuildFlags: []string{"-tags=verif,noasm"},
-		Env:        append(os.Environ(), "GOFLAGS=-mod=mod", "GOPROXY=off", "GOTOOLCHAIN=local"),
+		Env:        append(os.Environ(), "PATH=/opt/veriftools/go1.26.8/bin:"+os.Getenv("PATH"), "GOFLAGS=-mod=mod", "GOPROXY=off", "GOTOOLCHAIN=local"),
 	}
 	initial, err := packages.Load(pc, patterns...)
 	if err != nil {
